@@ -137,12 +137,12 @@ type probe struct{ client, path int }
 
 type sysClock struct{}
 
-func (sysClock) Epoch() uint64                             { return 0 }
-func (sysClock) Now() time.Time                            { return time.Now() }
-func (sysClock) Drift(time.Duration) time.Duration         { return 0 }
-func (sysClock) Step(time.Duration)                        {}
-func (sysClock) Adjust(_, _ time.Duration, _ float64)      {}
-func (sysClock) Sleep(d time.Duration)                     { time.Sleep(d) }
+func (sysClock) Epoch() uint64                        { return 0 }
+func (sysClock) Now() time.Time                       { return time.Now() }
+func (sysClock) Drift(time.Duration) time.Duration    { return 0 }
+func (sysClock) Step(time.Duration)                   {}
+func (sysClock) Adjust(_, _ time.Duration, _ float64) {}
+func (sysClock) Sleep(d time.Duration)                { time.Sleep(d) }
 
 func world() error {
 	worldOnce.Do(func() {
@@ -283,14 +283,29 @@ func kv(toks []string, key string) string {
 
 var discard = slog.New(slog.NewTextHandler(io.Discard, &slog.HandlerOptions{Level: slog.LevelError + 4}))
 
+// execRound runs one round; a round that hits the (generous) deadline is a sandbox problem
+// (machine overloaded, datagram lost), not a behaviour of the code: it is retried from scratch.
 func execRound(toks []string) string {
+	for attempt := 0; ; attempt++ {
+		res, timedOut := execRoundOnce(toks)
+		if !timedOut {
+			return res
+		}
+		if attempt == 3 {
+			panic("round timed out")
+		}
+		time.Sleep(200 * time.Millisecond)
+	}
+}
+
+func execRoundOnce(toks []string) (string, bool) {
 	if len(toks) != 5 {
-		return "bad-op"
+		return "bad-op", false
 	}
 	cs, ps, succ := list(kv(toks, "cs")), list(kv(toks, "ps")), list(kv(toks, "succ"))
 	data := unhex(kv(toks, "s"))
 	if len(succ) != len(cs) || len(ps) > maxPaths || len(cs) > 62 {
-		return "bad-op"
+		return "bad-op", false
 	}
 	if err := world(); err != nil {
 		panic("world: " + err.Error())
@@ -300,11 +315,11 @@ func execRound(toks []string) string {
 	sm := map[int]bool{}
 	for i, t := range cs {
 		if len(t) < 4 {
-			return "bad-op"
+			return "bad-op", false
 		}
 		for _, ch := range t[:3] {
 			if ch != '0' && ch != '1' {
-				return "bad-op"
+				return "bad-op", false
 			}
 		}
 		c := &client.SCIONClient{Log: discard, DSCP: uint8(i + 1), InterleavedMode: t[0] == '1'}
@@ -349,7 +364,7 @@ func execRound(toks []string) string {
 		return ""
 	})
 	if ctx.Err() != nil {
-		panic("round timed out")
+		return "", true
 	}
 
 	mu.Lock()
@@ -362,7 +377,7 @@ func execRound(toks []string) string {
 	}
 	for _, p := range log {
 		if p.client < 0 || p.client >= len(cs) {
-			return "err unknown-client"
+			return "err unknown-client", false
 		}
 		probes[p.client]++
 		s := strconv.Itoa(p.path)
@@ -376,7 +391,7 @@ func execRound(toks []string) string {
 		resets[i] = int64(f.resets)
 		// ResetInterleavedMode and Filter.Reset go together
 		if ref, _, _ := client.VerifC15Prev(clients[i]); f.resets > 0 && ref != "" && probes[i] == 0 {
-			return "err reset-without-interleaved-reset"
+			return "err reset-without-interleaved-reset", false
 		}
 	}
 	used := sc.pos
@@ -399,7 +414,7 @@ func execRound(toks []string) string {
 		used = 0
 	}
 	return fmt.Sprintf("%s assign=[%s] reset=%s probes=%s used=%d", head, strings.Join(assign, ","),
-		lib.IntList(resets), lib.IntList(probes), used)
+		lib.IntList(resets), lib.IntList(probes), used), false
 }
 
 func exec(t []string) string {
